@@ -37,13 +37,17 @@ def sh(cmd, **kw):
     return subprocess.run(cmd, stdout=subprocess.PIPE, stderr=subprocess.STDOUT, text=True, env=ENV, **kw)
 
 
-def codegen(manifest_dir, target_dir, extra_args=(), log=None, harness_filter=()):
+def codegen(manifest_dir, target_dir, extra_args=(), log=None, harness_filter=(), rustflags=None):
     """cargo kani --only-codegen; returns {pretty_name: metadata} or raises with the compiler output"""
-    cmd = ["cargo", "kani", "--only-codegen", "-Z", "stubbing", "--no-assertion-reach-checks", "--target-dir", target_dir] + list(extra_args)
+    cmd = ["cargo", "kani", "--only-codegen", "-Z", "stubbing", "-Z", "c-ffi", "--no-assertion-reach-checks",
+           "--target-dir", target_dir] + list(extra_args)
     for h in harness_filter:
         cmd += ["--harness", h]
     t0 = time.time()
-    r = sh(cmd, cwd=manifest_dir)
+    env = dict(ENV)
+    if rustflags:
+        env["RUSTFLAGS"] = rustflags
+    r = subprocess.run(cmd, stdout=subprocess.PIPE, stderr=subprocess.STDOUT, text=True, env=env, cwd=manifest_dir)
     if log:
         open(log, "w").write(" ".join(cmd) + "\n" + r.stdout)
     if r.returncode != 0:
@@ -65,9 +69,9 @@ def codegen(manifest_dir, target_dir, extra_args=(), log=None, harness_filter=()
     return metas, time.time() - t0, r.stdout
 
 
-def prepare(meta, work_out):
+def prepare(meta, work_out, c_libs=()):
     """goto-cc link + entry point, then the three goto-instrument passes Kani applies before CBMC"""
-    r = sh(["goto-cc", meta["goto_file"], KANI_HOME + "/library/kani/kani_lib.c", "-o", work_out])
+    r = sh(["goto-cc", meta["goto_file"], KANI_HOME + "/library/kani/kani_lib.c"] + list(c_libs) + ["-o", work_out])
     if r.returncode != 0:
         raise RuntimeError("goto-cc link failed: " + r.stdout[-2000:])
     r = sh(["goto-cc", work_out, "--function", meta["mangled_name"], "-o", work_out])
